@@ -107,6 +107,11 @@ class Contract(object):
                 raise
             lib.txn_exit(I, None)
         if not self.txns:
+            t = lib.current_txn(I)
+            for tb in self.writes:
+                I.db.writes.append((tb, 'contract:' + self.name, ()))
+                I.event('db.write', tb, 'contract:' + self.name,
+                        t['id'] if t else None)
             if which and self.raises[which - 1] in self.guards:
                 g = self.guards[self.raises[which - 1]](I, args, kwargs)
                 I.ex.assume(g if not isinstance(g, bool) else z3.BoolVal(g))
